@@ -68,6 +68,7 @@ class ThrottleCall(Contract):
             st.assume(rv(period) > 0)
         obj = it.instantiate(info.cid, CallArgs([self.fn], {"limit": V.VInt(limit), "period": period}))
         self.obj = obj
+        self.mark = attr_write_mark(it)
         p = st.get(obj, "_period")
         self.period = st.simp(rv(p))
         self.limit = limit
@@ -208,6 +209,7 @@ class ThrottleCall(Contract):
     # ---------------------------------------------------------------------------------- exits
     def on_return(self, it, ret):
         st = it.st
+        wrapper_frame(it, self.obj, self.mark)
         ev = [e for e in st.events if e[0] == "oracle"]
         st.check("P3:function-called-exactly-once", z3.BoolVal(len(ev) == 1))
         if ev:
